@@ -195,6 +195,7 @@ def run(tier: str, seed: int, rep: Report, model: Model) -> dict:
         results = worker.call_many("impl_model_history", hs, timeout=30.0)
         dres = worker.call_many("impl_class_def", [d for d, _ in defs], timeout=30.0)
         nested = worker.call("impl_nested", {}, timeout=60.0)
+        inpl = worker.call("impl_inplace_models", {}, timeout=120.0)
     finally:
         worker.close()
     for h, ans, res in zip(hs, answers, results):
@@ -256,6 +257,13 @@ def run(tier: str, seed: int, rep: Report, model: Model) -> dict:
 
         sets = [[k] for k in NPS] + [list(p) for p in itertools.permutations(NPS, 2)]
     cd_tasks = [{"cls": cls, "base": "npt.NDArray[" + " | ".join(NPS[k] for k in ks) + "]", "value": None, "scalars": ks} for cls in I.TENSOR_CLASSES for ks in sets]
+    # abstract scalar types and Any: the cross-check sees a type that is in no table (model: the `other` dtype kind); refusing is what
+    # the property demands only where the abstract type contradicts the class (np.floating[...] for an integer class, ...)
+    ABSTRACT = {"typing.Any": None, "np.floating[typing.Any]": ("f16", "f32", "f64"), "np.integer[typing.Any]": ("i8", "i32", "u8", "u64"),
+                "np.signedinteger[typing.Any]": ("i8", "i64"), "np.number[typing.Any]": ("i32", "f32"), "np.floating": ("f32",), "np.generic": None}
+    for cls in I.TENSOR_CLASSES:
+        for src, members in ABSTRACT.items():
+            cd_tasks.append({"cls": cls, "base": f"npt.NDArray[{src}]", "value": None, "scalars": ["other"], "abstract": src, "members": members})
     cd_tasks = [t for t in cd_tasks if t["cls"] != "BFloat16Tensor"]
     rep.streams["class_definitions"] = len(cd_tasks)
     w3 = ImplWorker("harness.props.c17")
@@ -269,6 +277,19 @@ def run(tier: str, seed: int, rep: Report, model: Model) -> dict:
             continue
         want = any(not documented(t["cls"], "np", k) for k in t["scalars"])
         refused = r.get("v") == "decerr" and r.get("kind") == "Dtype"
+        if "abstract" in t:
+            # contradiction = the class documents none of the abstract type's members; otherwise the reference has no opinion
+            contradicts = t["members"] is not None and not any(documented(t["cls"], "np", k) for k in t["members"])
+            rep.case(("classdef", t["cls"], t["abstract"]), None)
+            rep.count(f"classdef_abstract:{'refused' if refused else r.get('v')}")
+            rec = {"class": t["cls"], "base": t["base"], "result": r, "model_refuses": mans == "1", "contradicts_the_class": contradicts}
+            if r.get("v") not in ("defined", "decerr") or (r.get("v") == "decerr" and not refused):
+                rep.violation({"what": "class definition failed with something other than the dtype error", **rec})
+            elif contradicts and not refused:
+                rep.violation({"what": "class definition accepted an abstract scalar type that contradicts the tensor class", **rec})
+            elif refused != (mans == "1"):
+                rep.disagreement({"what": "model of the class-definition cross-check and implementation differ on an abstract scalar type", **rec})
+            continue
         rep.case(("classdef", t["cls"], tuple(t["scalars"])), None)
         rep.count(f"classdef_sweep:{'refused' if refused else r.get('v')}")
         rec = {"class": t["cls"], "base": t["base"], "result": r, "model_refuses": mans == "1", "documented_refuses": want}
@@ -279,10 +300,22 @@ def run(tier: str, seed: int, rep: Report, model: Model) -> dict:
                                                           "accepted although a named scalar type contradicts the tensor class"), **rec})
         elif refused != (mans == "1"):
             rep.disagreement({"what": "model of the class-definition cross-check and implementation differ", **rec})
+    rep.case("same_object_changed_in_place", {"n": inpl.get("n")})
+    for pr in inpl.get("problems", [{"what": "the in-place run did not finish", "detail": inpl}] if "problems" not in inpl else []):
+        rep.violation(pr)
     rep.case("nested", nested)
     for p in nested.get("problems", [{"what": "nested-model run did not finish", "detail": nested}] if "problems" not in nested else []):
         rep.violation(p)
     return {}
+
+
+def impl_inplace_models(_: dict) -> dict:
+    """Repeated validation of one array object that was changed in place in between (the pydantic forms of c09.impl_inplace)."""
+    from harness.props import c09
+
+    r = c09.impl_inplace({})
+    r["problems"] = [p for p in r.get("problems", []) if p.get("form") in ("pydantic", "model_validate")]
+    return r
 
 
 def impl_nested(_: dict) -> dict:
